@@ -52,6 +52,8 @@ type Verifier struct {
 	trivial          int
 	maxVisits        int
 	preamble         string
+	escaped          map[*Object]bool
+	contains         map[*Object][]Value
 	opaqueGlobals    map[*ssa.Global]*Object
 	initLike         bool
 	globalArrLen     map[*Object]int64
@@ -89,7 +91,7 @@ type allowedLoc struct {
 
 func NewVerifier() *Verifier {
 	return &Verifier{spkgs: map[string]*ssa.Package{}, params: map[string]*FieldParams{}, cfgCache: map[*ssa.Function]*cfgInfo{},
-		contracts: map[string]*Contract{}, usedContracts: map[string]bool{}, assumptions: map[string]bool{}, maxVisits: 5000,
+		contracts: map[string]*Contract{}, usedContracts: map[string]bool{}, assumptions: map[string]bool{}, maxVisits: 600,
 		hasDefers: map[*ssa.Function]bool{}, specConsts: map[string]*big.Int{}, ringUsed: map[string]bool{}, ringFacts: map[string]bool{}, usedLemmas: map[string]bool{}, layerKeys: map[*Contract]string{}, methodCache: map[*ssa.Package][]*ssa.Function{}}
 }
 
@@ -948,4 +950,53 @@ func contractKey(rel string, c *Contract) string {
 		k += "@" + c.Layer
 	}
 	return k
+}
+
+// noteEscape: a slice (or pointer) value whose backing object existed at entry and is an argument of the
+// function is being stored into memory that outlives the call: recorded for the ensures clause "noescape(x)".
+func (v *Verifier) noteEscape(fr *Frame, st *State, val Value, into *Object) {
+	if into != nil && !into.Entry && !into.Escaped {
+		// stored into a local object: it escapes only if that object later escapes; conservatively propagate
+		// by remembering the containment
+		v.contains[into] = append(v.contains[into], val)
+		return
+	}
+	v.markEscaped(val, st)
+}
+
+func (v *Verifier) markEscaped(val Value, st *State) {
+	switch x := val.(type) {
+	case *SliceV:
+		if x.Obj != nil {
+			v.escaped[x.Obj] = true
+			x.Obj.Escaped = true
+			for _, c := range v.contains[x.Obj] {
+				v.markEscaped(c, st)
+			}
+			delete(v.contains, x.Obj)
+		}
+	case *PtrV:
+		if x.Obj != nil && !v.escaped[x.Obj] {
+			v.escaped[x.Obj] = true
+			x.Obj.Escaped = true
+			for _, c := range v.contains[x.Obj] {
+				v.markEscaped(c, st)
+			}
+			delete(v.contains, x.Obj)
+			if cont, ok := st.mem[x.Obj]; ok {
+				v.markEscaped(cont, st)
+			}
+		}
+	case *AggV:
+		for _, e := range x.Elems {
+			v.markEscaped(e, st)
+		}
+	case *IteV:
+		v.markEscaped(x.A, st)
+		v.markEscaped(x.B, st)
+	case *IfaceV:
+		if x.V != nil {
+			v.markEscaped(x.V, st)
+		}
+	}
 }
